@@ -7,7 +7,10 @@
                                                    P<sid>,<pf>/<pool>,<addr> R<sid>,<addr> I<addr> D0|D1 V<pf>/<pool> O<pf>
    One output token per op; Allocate answers and walk choices are taken from the implementation's line,
    checked for admissibility inside the model step and echoed. *)
-let variant = if Array.length Sys.argv > 3 && Sys.argv.(3) = "defective" then Defective else Repaired
+let variant =
+  if Array.length Sys.argv > 3 then
+    (match Sys.argv.(3) with "defective" -> Defective | "sharedvrf" -> SharedVrf | _ -> Repaired)
+  else Repaired
 
 let addr_of_tok (t : string) : addr option =
   if t = "nil" || t = "bad" then None
@@ -159,117 +162,239 @@ let tok_of_key (a, b) = decimal_of_n a ^ "/" ^ decimal_of_n b
 let z_of_str s = let i = int_of_string s in if i = 0 then Z0 else if i > 0 then Zpos (pos_of_int i) else Zneg (pos_of_int (-i))
 let pow2 k = let rec go k acc = if k = 0 then acc else go (k-1) (N.mul acc (n_of_int 2)) in go k (n_of_int 1)
 let rec n_range (a : n) (b : n) : n list = if N.leb a b then a :: n_range (N.add a (n_of_int 1)) b else []
+let fam_of_char = function '4' -> F4 | 'n' -> FNA | 'd' -> FPD | c -> failwith (Printf.sprintf "fam %c" c)
+let fam_tag = function F4 -> "4" | FNA -> "n" | FPD -> "d"
 
-(* the glue from configuration strings to a pool geometry (what initV4Pools/initV6Pools compute with
-   netaddr/netip before calling NewPoolAllocator) *)
-let reg_cfg v6 (pgw : string) (net : string) (lo : string) (hi : string) (gw : string) (excl : (string * string) list)
-  : pcfg option =
+(* the glue from configuration strings to an allocator geometry (what initV4Pools/initV6Pools compute
+   with netaddr/netip before calling NewPoolAllocator / NewPrefixAllocator) *)
+let reg_cfg fam (pgw : string) (net : string) (lo : string) (hi : string) (gw : string) (excl : (string * string) list)
+  : acfg option =
   if net = "bad" then None else
   let (nb, bits) = match split_on '/' net with [a; b] -> (addr_exn a, int_of_string b) | _ -> failwith "net" in
+  match fam with
+  | FPD ->
+    let c = { pd_net = snd nb; pd_nbits = n_of_int bits; pd_plen = n_of_str lo } in
+    if pd_valid c then (if pd_wf c then Some (APd c) else failwith "pd outside model") else None
+  | _ ->
   let width = match fst nb with V4 -> 32 | V6 -> 128 in
   let m = pow2 (width - bits) in
   let first = N.mul (N.div (snd nb) m) m in
   let last = N.sub (N.add first m) (n_of_int 1) in
-  let bound t dflt = if t = "-" then Some (fst nb, dflt) else if t = "junk" then None else Some (addr_exn t) in
+  let bound t dflt = if t = "-" then Some (fst nb, dflt) else if t = "junk" then None else Some (unmap (addr_exn t)) in
   match bound lo (N.add first (n_of_int 1)), bound hi (N.sub last (n_of_int 1)) with
   | Some (f1, l), Some (_, h) ->
-    let gwtok = if v6 then gw else if gw = "-" then pgw else gw in
+    let gwtok = if fam = FNA then gw else if gw = "-" then pgw else gw in
     let gws = if gwtok = "-" || gwtok = "junk" then [] else [addr_exn gwtok] in
-    let ex = if v6 then [] else
+    let ex = if fam = FNA then [] else
         List.concat_map (fun (a, b) ->
             if a = "junk" || b = "junk" then [] else
             if b = "-" then [addr_exn a] else
               let (fa, na) = addr_exn a and (fb, nb) = addr_exn b in
               if fa <> fb then [] else List.map (fun x -> (fa, x)) (n_range na nb)) excl in
-    Some { p_fam = f1; p_lo = l; p_hi = h; p_excl = gws @ ex }
+    Some (APool { p_fam = f1; p_lo = l; p_hi = h; p_excl = gws @ ex })
   | _ -> None
 
+let show_gobs = function
+  | OA a -> tok_of_addr a
+  | OP (ip, o, b) -> "p" ^ decimal_of_n ip ^ "/" ^ decimal_of_n o ^ ":" ^ decimal_of_n b
 let show_rout = function
-  | ROAddr (k, a) -> "a" ^ tok_of_key k ^ "=" ^ tok_of_addr a
+  | ROAns (k, o) -> "a" ^ tok_of_key k ^ "=" ^ show_gobs o
   | ROExhausted -> "x" | ROOk -> "ok" | ROReserved -> "res"
   | RONum k -> "n" ^ decimal_of_n k
   | RONoPool -> "nopool"
+  | ROList l -> "o" ^ String.concat "" (List.map (fun k -> ":" ^ tok_of_key k) l)
 
-let reg_case v6 toks impl =
+let parse_profiles toks =
   match toks with
   | np :: r ->
     let rec profiles k r acc = if k = 0 then (List.rev acc, r) else
         match r with
-        | pf :: pgw :: nk :: r ->
+        | pf :: fam :: pgw :: nk :: r ->
+          let fam = fam_of_char fam.[0] in
           let rec pools j r acc = if j = 0 then (List.rev acc, r) else
               match r with
               | name :: prio :: vrf :: net :: lo :: hi :: gw :: ne :: r ->
                 let (ex, r) = take (2 * int_of_string ne) r in
                 let rec pairs = function a :: b :: t -> (a, b) :: pairs t | _ -> [] in
                 let p = { rp_name = n_of_str name; rp_prio = z_of_str prio; rp_vrf = n_of_str vrf;
-                          rp_cfg = reg_cfg v6 pgw net lo hi gw (pairs ex) } in
+                          rp_cfg = reg_cfg fam pgw net lo hi gw (pairs ex) } in
                 pools (j-1) r (p :: acc)
               | _ -> failwith "pool spec" in
           let (ps, r) = pools (int_of_string nk) r [] in
-          profiles (k-1) r ({ rf_name = n_of_str pf; rf_sorted = not v6; rf_pools = ps } :: acc)
+          profiles (k-1) r ({ rf_name = n_of_str pf; rf_fam = fam; rf_pools = ps } :: acc)
         | _ -> failwith "profile spec" in
-    let (pfs, r) = profiles (int_of_string np) r [] in
-    let ops = match r with ";" :: o -> o | _ -> failwith "reg: no ;" in
-    let st = ref (reg_init pfs) in
-    let walk_obs it = match it with
-      | Some t -> (match String.index_opt t '@' with
-          | Some i -> let k = String.sub t (i+1) (String.length t - i - 1) in
-            if k = "-" then None else (try Some (key_of_tok k) with _ -> raise (Stop "INADMISSIBLE:walk-unparseable"))
-          | None -> raise (Stop "INADMISSIBLE:walk-unparseable"))
-      | None -> raise (Stop "INADMISSIBLE:walk-unparseable") in
-    let outs = run_ops ops impl (fun op it ->
-        let arg = rest op in
-        let q = split_on ',' arg in
-        if op.[0] = 'O' then
-          "o" ^ String.concat "" (List.map (fun k -> ":" ^ tok_of_key k) (pools_of !st (n_of_str arg)))
-        else
-        let (k, walk) = match op.[0], q with
-          | 'A', [s; pf; ov; vrf] ->
-            let obs = match it with
-              | Some "x" -> None
-              | Some t when String.length t > 1 && t.[0] = 'a' ->
-                (try (match split_on '=' (rest t) with
-                     | [k; a] -> Some (key_of_tok k, addr_exn a)
-                     | _ -> raise Not_found) with _ -> raise (Stop "INADMISSIBLE:unparseable"))
-              | _ -> raise (Stop "INADMISSIBLE:unparseable") in
-            (RAlloc (n_of_str pf, n_of_str ov, n_of_str vrf, n_of_str s, obs), false)
-          | 'L', [k; a] -> (RRelease (key_of_tok k, addr_of_tok a), false)
-          | 'P', [s; k; a] ->
-            let k = key_of_tok k in
-            (match assoc_find key_eqb k !st.r_allocs with
-             | Some _ -> (RReserveInPool (k, addr_of_tok a, n_of_str s, None), false)
-             | None -> (RReserveInPool (k, addr_of_tok a, n_of_str s, walk_obs it), true))
-          | 'R', [s; a] -> (RReserveIP (addr_of_tok a, n_of_str s, walk_obs it), true)
-          | 'I', [a] -> (RReleaseIP (addr_of_tok a), false)
-          | 'D', _ -> (RSetDir (arg = "1"), false)
-          | 'V', [k] -> (RAvail (key_of_tok k), false)
-          | _ -> failwith ("reg op " ^ op) in
-        match reg_step variant !st k with
-        | Some (st', o) ->
-          st := st';
-          if walk then show_rout o ^ "@" ^ (match k with
-              | RReserveIP (_, _, Some w) | RReserveInPool (_, _, _, Some w) -> tok_of_key w
-              | _ -> "-")
-          else show_rout o
-        | None ->
-          let why = match k with
-            | RAlloc (pf, ov, vrf, _, obs) ->
-              (match alloc_target !st pf ov vrf, obs with
-               | None, Some _ -> "no-pool-of-this-vrf-has-a-free-address"
-               | Some t, None -> "exhausted-but-" ^ tok_of_key t ^ "-has-free"
-               | Some t, Some (k', a) ->
-                 if not (key_eqb t k') then "wrong-pool-expected-" ^ tok_of_key t
-                 else (match assoc_find key_eqb t !st.r_allocs with
-                     | Some (c, ps) -> why_not c ps (Some a)
-                     | None -> "?")
-               | None, None -> "?")
-            | _ -> "walk-stopped-at-a-pool-that-does-not-contain-the-address" in
-          raise (Stop ("INADMISSIBLE:" ^ why))) in
-    let complete = List.length outs = List.length ops && not (List.exists (fun s -> String.length s > 11 && String.sub s 0 12 = "INADMISSIBLE") outs) in
-    if not complete then outs else
-      let ks = List.sort compare (List.map (fun (k, (_, ps)) -> (tok_of_key k, List.length ps.free)) !st.r_allocs) in
-      outs @ ("|" :: List.map (fun (k, n) -> k ^ "=" ^ string_of_int n) ks)
+    profiles (int_of_string np) r []
   | _ -> failwith "reg"
+
+let arg_of fam t = match fam with FPD -> RP (pfx_of_tok t) | _ -> RA (addr_of_tok t)
+
+let obs_ans (it : string option) : (key * gobs) option =
+  match it with
+  | Some "x" -> None
+  | Some t when String.length t > 1 && t.[0] = 'a' ->
+    (try (match split_on '=' (rest t) with
+         | [k; a] ->
+           let o = if String.length a > 0 && a.[0] = 'p' then
+               (match obs_pfx (Some a) with Some ((ip, o), b) -> OP (ip, o, b) | None -> raise Not_found)
+             else OA (addr_exn a) in
+           Some (key_of_tok k, o)
+         | _ -> raise Not_found) with _ -> raise (Stop "INADMISSIBLE:unparseable"))
+  | _ -> raise (Stop "INADMISSIBLE:unparseable")
+
+(* the pool a containment walk stopped at: from the implementation's token (..@key) when it has one,
+   otherwise inferred when at most one allocator contains the argument *)
+let walk_obs st fam x (it : string option) : key option =
+  let from_tok t =
+    match String.index_opt t '@' with
+    | Some i -> let k = String.sub t (i+1) (String.length t - i - 1) in
+      if k = "-" then Some None else (try Some (Some (key_of_tok k)) with _ -> raise (Stop "INADMISSIBLE:walk-unparseable"))
+    | None -> None in
+  match (match it with Some t -> from_tok t | None -> None) with
+  | Some o -> o
+  | None ->
+    (match List.filter (fun (_, (ac, _)) -> acontains variant ac x) (r_allocs st fam) with
+     | [] -> None
+     | [(k, _)] -> Some k
+     | _ -> raise (Stop "AMBIGUOUS-WALK"))
+
+let why_alloc st fam pf ov vrf obs =
+  match alloc_target variant st fam pf ov vrf, obs with
+  | None, Some _ -> "no-pool-of-this-vrf-has-a-free-address"
+  | Some t, None -> "exhausted-but-" ^ tok_of_key t ^ "-has-free"
+  | Some t, Some (k', o) ->
+    if not (key_eqb t k') then "wrong-pool-expected-" ^ tok_of_key t
+    else (match assoc_find key_eqb t (r_allocs st fam), o with
+        | Some (APool c, ps), OA a -> why_not c ps (Some a)
+        | Some (APd c, ps), OP (ip, on, b) ->
+          (match prefix_to_index variant c (Pfx (Some (V6, ip), on, b)) with
+           | None -> "outside-pool"
+           | Some i -> if index_to_prefix c i <> ip then "unaligned"
+             else (match lm_lookup (key_of_idx i) ps.leases with
+                 | Some s -> "held-by-s" ^ decimal_of_n s | None -> "not-free"))
+        | _ -> "wrong-kind-of-answer")
+  | None, None -> "?"
+
+let final_counts st =
+  let one fam = List.map (fun (k, (_, ps)) -> fam_tag fam ^ ":" ^ tok_of_key k ^ "=" ^ string_of_int (List.length ps.free)) (r_allocs st fam) in
+  List.sort compare (one F4 @ one FNA @ one FPD)
+
+let reg_op st op it : rcall * bool =
+  if op.[0] = 'D' then (RSetDir (rest op = "1"), false) else
+  let fam = fam_of_char op.[1] in
+  let q = split_on ',' (String.sub op 2 (String.length op - 2)) in
+  match op.[0], q with
+  | 'A', [s; pf; ov; vrf] -> (RAlloc (fam, n_of_str pf, n_of_str ov, n_of_str vrf, n_of_str s, obs_ans it), false)
+  | 'L', [k; a] -> (RRelease (fam, key_of_tok k, arg_of fam a), false)
+  | 'P', [s; k; a] ->
+    let k = key_of_tok k and x = arg_of fam a in
+    (match assoc_find key_eqb k (r_allocs st fam) with
+     | Some _ -> (RReserveInPool (fam, k, x, n_of_str s, None), false)
+     | None -> (RReserveInPool (fam, k, x, n_of_str s, walk_obs st fam x it), true))
+  | 'R', [s; a] -> let x = arg_of fam a in (RReserve (fam, x, n_of_str s, walk_obs st fam x it), true)
+  | 'Q', [k; a] ->
+    let k = key_of_tok k and x = arg_of fam a in
+    (match assoc_find key_eqb k (r_allocs st fam) with
+     | Some _ -> (RReleaseInPool (fam, k, x, None), false)
+     | None -> (RReleaseInPool (fam, k, x, walk_obs st fam x it), true))
+  | 'I', [a] ->
+    let x = arg_of fam a in
+    if fam = FPD then (RReleaseByValue (fam, x, walk_obs st fam x it), true) else (RReleaseByValue (fam, x, None), false)
+  | 'V', [k] -> (RAvail (fam, key_of_tok k), false)
+  | 'O', [pf] -> (RPools (fam, n_of_str pf), false)
+  | _ -> failwith ("reg op " ^ op)
+
+let walk_key = function
+  | RReserve (_, _, _, Some w) | RReserveInPool (_, _, _, _, Some w)
+  | RReleaseInPool (_, _, _, Some w) | RReleaseByValue (_, _, Some w) -> tok_of_key w
+  | _ -> "-"
+
+let reg_step_show st k walk =
+  match reg_step variant !st k with
+  | Some (st', o) ->
+    st := st';
+    if walk then show_rout o ^ "@" ^ walk_key k else show_rout o
+  | None ->
+    let why = match k with
+      | RAlloc (fam, pf, ov, vrf, _, obs) -> why_alloc !st fam pf ov vrf obs
+      | _ -> "walk-stopped-at-a-pool-that-does-not-contain-the-argument" in
+    raise (Stop ("INADMISSIBLE:" ^ why))
+
+let is_inadm s = String.length s > 11 && String.sub s 0 12 = "INADMISSIBLE"
+
+let reg_case toks impl =
+  let (pfs, r) = parse_profiles toks in
+  let ops = match r with ";" :: o -> o | _ -> failwith "reg: no ;" in
+  let st = ref (reg_init variant pfs) in
+  let outs = run_ops ops impl (fun op it -> let (k, walk) = reg_op !st op it in reg_step_show st k walk) in
+  let complete = List.length outs = List.length ops && not (List.exists is_inadm outs) in
+  if not complete then outs else outs @ ("|" :: final_counts !st)
+
+(* ---------------------------------------------------------------- ResolveV4 / ResolveV6 (pkg/dhcp) *)
+(* res <profiles as for reg> ; ops
+     Y<sid>,<pf>,<override>,<vrf>,<addr|->                       ResolveV4
+     Z<sid>,<pf>,<iana override>,<pd override>,<vrf>,<addr|->,<pfx|->   ResolveV6
+     plus the registry ops A L I of reg (exported API)
+   no '@' tokens: pools of one family are disjoint in these cases, so walks are inferred *)
+let opt_key = function Some k -> tok_of_key k | None -> "-"
+let res_case toks impl =
+  let (pfs, r) = parse_profiles toks in
+  let ops = match r with ";" :: o -> o | _ -> failwith "res: no ;" in
+  let st = ref (reg_init variant pfs) in
+  run_ops ops impl (fun op it ->
+    match op.[0] with
+    | 'Y' ->
+      (match split_on ',' (rest op) with
+       | [s; pf; ov; vrf; have] ->
+         let have = if have = "-" then None else Some (unmap (addr_exn have)) in
+         let obs = match have, it with
+           | None, Some "nil" -> None
+           | None, Some t when String.length t > 1 && t.[0] = 'r' ->
+             (match split_on '@' (rest t) with
+              | [a; k] when k <> "-" -> (try Some (key_of_tok k, OA (addr_exn a)) with _ -> raise (Stop "INADMISSIBLE:unparseable"))
+              | _ -> raise (Stop "INADMISSIBLE:unparseable"))
+           | None, _ -> raise (Stop "INADMISSIBLE:unparseable")
+           | Some _, _ -> None in
+         let w = match have with Some a -> walk_obs !st F4 (RA (Some a)) None | None -> None in
+         (match resolve4 variant !st (n_of_str pf) (n_of_str ov) (n_of_str vrf) (n_of_str s) have obs w with
+          | Some (st', R4Nil) -> st := st'; "nil"
+          | Some (st', R4 (a, pool)) -> st := st'; "r" ^ tok_of_addr a ^ "@" ^ opt_key pool
+          | None -> raise (Stop ("INADMISSIBLE:" ^ why_alloc !st F4 (n_of_str pf) (n_of_str ov) (n_of_str vrf) obs)))
+       | _ -> failwith "Y")
+    | 'Z' ->
+      (match split_on ',' (rest op) with
+       | [s; pf; naov; pdov; vrf; hna; hpd] ->
+         let hna = if hna = "-" then None else Some (unmap (addr_exn hna)) in
+         let hpd = if hpd = "-" then None else Some (pfx_of_tok hpd) in
+         (* impl token: <nil|ok>:na=<addr|->:napool=<k|->:pd=<p..|->:pdpool=<k|-> *)
+         let fields = match it with
+           | Some t -> List.filter_map (fun f -> match String.index_opt f '=' with
+               | Some i -> Some (String.sub f 0 i, String.sub f (i+1) (String.length f - i - 1)) | None -> None)
+               (split_on ';' t)
+           | None -> [] in
+         let fld n = try List.assoc n fields with Not_found -> raise (Stop "INADMISSIBLE:unparseable") in
+         let obsna = match hna with
+           | Some _ -> None
+           | None -> if fld "na" = "-" then None else
+               (try Some (key_of_tok (fld "napool"), OA (addr_exn (fld "na"))) with Stop s -> raise (Stop s) | _ -> raise (Stop "INADMISSIBLE:unparseable")) in
+         let obspd = match hpd with
+           | Some _ -> None
+           | None -> if fld "pd" = "-" then None else
+               (match obs_pfx (Some (fld "pd")) with
+                | Some ((ip, o), b) -> (try Some (key_of_tok (fld "pdpool"), OP (ip, o, b)) with _ -> raise (Stop "INADMISSIBLE:unparseable"))
+                | None -> None) in
+         let wna = match hna with Some a -> walk_obs !st FNA (RA (Some a)) None | None -> None in
+         (* the PD walk is inferred on the state after the IA_NA part; PD allocators are untouched by it *)
+         let wpd = match hpd with Some p -> walk_obs !st FPD (RP p) None | None -> None in
+         (match resolve6 variant !st (n_of_str pf) (n_of_str naov) (n_of_str pdov) (n_of_str vrf) (n_of_str s)
+                  hna hpd obsna obspd wna wpd with
+          | Some (st', r) ->
+            st := st';
+            Printf.sprintf "%s;na=%s;napool=%s;pd=%s;pdpool=%s" (if r.r6_nil then "nil" else "ok")
+              (match r.r6_na with Some a -> tok_of_addr a | None -> "-") (opt_key r.r6_napool)
+              (match r.r6_pd with Some o -> show_gobs o | None -> "-") (opt_key r.r6_pdpool)
+          | None -> raise (Stop "INADMISSIBLE:resolve6"))
+       | _ -> failwith "Z")
+    | _ -> let (k, _) = reg_op !st op it in reg_step_show st k false)
 
 let () =
   let cases = read_lines Sys.argv.(1) in
@@ -285,10 +410,10 @@ let () =
           (match tokens line with
            | "pool" :: r -> String.concat " " (pool_case r it)
            | "pd" :: r -> String.concat " " (pd_case r it)
-           | "reg4" :: r -> String.concat " " (reg_case false r it)
-           | "reg6" :: r -> String.concat " " (reg_case true r it)
+           | "reg" :: r -> String.concat " " (reg_case r it)
+           | "res" :: r -> String.concat " " (res_case r it)
            | _ -> "badline")
-        with Failure m -> "MODEL-DRIVER-ERROR " ^ m | Not_found -> "MODEL-DRIVER-ERROR notfound"
+        with Failure m -> "MODEL-DRIVER-ERROR " ^ m | Stop m -> m | Not_found -> "MODEL-DRIVER-ERROR notfound"
            | Invalid_argument m -> "MODEL-DRIVER-ERROR " ^ m in
       print_endline res;
       go cr ir in
